@@ -357,7 +357,7 @@ psRes_t psPemCertBufToList(psPool_t *pool,
 
     *x509certList = NULL;
     prev = NULL;
-    if (buf == NULL)
+    if (buf == NULL || len == 0)
     {
         psTraceCrypto("Bad parameters to pemCertBufToList\n");
         return PS_ARG_FAIL;
